@@ -30,6 +30,7 @@ META = {
                     "format detection reads the records through the GAF reader stub"],
 }
 META["explanation"] += '  Segment names are mixed (s0, s1-alt, s1.2, b#0|x: word prefixes of one another, characters outside [A-Za-z0-9_]) and every second read name carries a comment after a blank.  tokens/cli/index.py: the path tokenizers of index.py decided as languages by z3.'
+META["explanation"] += '  The comment of every second read name holds multi-byte characters; no-final-newline variants.'
 
 setup_done = []
 
